@@ -15,12 +15,13 @@ RULE = ("three-phase networks dimensioned so constraints bind in a good share of
         "on/off x {no estimator, SimpleRampdown, stub estimator} x continuous_inc; non-trivial = a call with a binding "
         "constraint (some session got less than its own bound) and >=2 active sessions; distinct = history signature + options")
 PROBES = ["binding_call", "nearly_finished_session", "estimator_bound_binding", "uninterrupted_min_applied", "crossed_session_ids",
-          "resumed", "rr_call", "greedy_call", "finite_rate_station", "removed_finished_session", "constraint_free"]
-FAULT_DIMENSION = "crash + rerun (estimator state carried across a resume); no fault alters the algorithm"
+          "resumed", "rr_call", "greedy_call", "finite_rate_station", "removed_finished_session", "constraint_free", "call_after_reconfig"]
+FAULT_DIMENSION = ("crash + rerun (estimator state carried across a resume); operator changes a constraint limit between two "
+                   "periods (update_constraint); no fault alters the algorithm")
 ASSUMPTIONS = ["network tolerances >= the algorithms' hard-wired 1e-5 / 1e-7 (the algorithm-side check does not read the network's)",
                "EVSEs whose continuous range excludes 0, deadband EVSEs and max_rate=inf are outside the property's scope",
                "allowable-set membership tolerance 1e-3 (the EVSE's own); demand/estimator bounds +1e-9"]
-PROFILE = world.profile(constraints={"three": 5, "single": 1, "none": 1}, binding=(0.15, 0.9), evse_kinds={"cont": 3, "finite": 4},
+PROFILE = world.profile(reconfig=0.25, constraints={"three": 5, "single": 1, "none": 1}, binding=(0.15, 0.9), evse_kinds={"cont": 3, "finite": 4},
                         party={"greedy": 3, "rr": 2}, estimator={"none": 2, "rampdown": 2, "stub": 3}, uninterrupted=0.5,
                         sid_mode={"plain": 1, "crossed": 1}, faults={"crash": 0.3}, resume_modes=["rerun"],
                         demand=(0.01, 1.6), rr_inc=[0.05, 0.1, 0.5, 1, 3], stations=(2, 7), noise=0.2, horizon=(4, 24))
@@ -65,13 +66,14 @@ def check(sc):
     ids = [s["id"] for s in sc["network"]["stations"]]
     st = {s["id"]: s for s in sc["network"]["stations"]}
     phases = [s["phase"] for s in sc["network"]["stations"]]
-    cons = cons_of(sc)
+    cons0 = cons_of(sc)
+    cons = cons0
     vt, rt = sc["network"]["violation_tolerance"], sc["network"]["relative_tolerance"]
     nw = tr.sim.network
     out.probe("resumed", len(tr.resumes))
     if any(s["session_id"] in ids and s["session_id"] != s["station"] for s in sc["sessions"]):
         out.probe("crossed_session_ids")
-    if not cons:
+    if not cons0:
         out.probe("constraint_free")
     if any(s["evse"]["type"] == "Finite" for s in sc["network"]["stations"]):
         out.probe("finite_rate_station")
@@ -88,11 +90,17 @@ def check(sc):
             break
         vec = [sch[s][0] for s in ids]
         col = [[x] for x in vec]
+        cons = cons_of(sc, t)
+        reconfigured = any(r["t"] <= t for r in sc.get("reconfig", ()))
+        if reconfigured:
+            out.probe("call_after_reconfig")
         m, where = phasor.margins(cons, phases, col, vt, rt)
         if cons and m < -1e-9 * max(1.0, cons[where[0]][1]):
             out.add("C07/infeasible_schedule", "t=%d schedule %s violates constraint %d by %.3e A (beyond tolerance)" % (t, vec, where[0], -m))
             break
-        if not bool(nw.is_feasible(np.array(col, dtype=float))) and (not cons or m > 1e-9 * max(1.0, cons[where[0]][1])):
+        # the network object is the one at the END of the run: only comparable while its constraints are those of period t
+        if cons == cons_of(sc, 10 ** 9) and not bool(nw.is_feasible(np.array(col, dtype=float))) \
+                and (not cons or m > 1e-9 * max(1.0, cons[where[0]][1])):
             out.add("C07/network_rejects_schedule", "t=%d schedule %s" % (t, vec))
             break
         truth = {x["station"]: x for x in truth_sessions(sc, tr, t)}
